@@ -291,6 +291,12 @@ example : bindVar [(0, .fn (.var 2) .other)] false 9 1 (.unary (.var 0)) = some 
     bindVar [(1, .unary (.var 0)), (0, .fn (.var 2) .other)] false 9 2 (.anyOf (.var 1) .other) = some none := by decide
 
 open Mimium.Occurs in
+/-- non-vacuity of the `Acyclic` hypotheses: the two-entry store of the example above is acyclic — by the theorem itself,
+applied twice from the empty store -/
+example : Acyclic [(1, .unary (.var 0)), (0, .fn (.var 2) .other)] :=
+  C04_bind_preserves_acyclic _ 1 9 _ (C04_bind_preserves_acyclic [] 0 9 (.fn (.var 2) .other) acyclic_nil (by decide)) (by decide)
+
+open Mimium.Occurs in
 /-- non-vacuity of `C04_occurs_check_terminates`: six requests (a binding, a refused circular binding through an already-bound
 variable, a variable-variable link, a request on two variables with the same root, a record extension, a binding of the
 extension's variable); `fuelBound = 106`; the run with fuel 3 runs out, fuel 4 already gives the final answer. -/
@@ -471,6 +477,17 @@ the OLD code), and the projection check rejects `idx = len` (`projCheckLe`). Rev
 search then replays the old witnesses (`fn f(x){ x(x) }`, `t.2` on a pair). -/
 theorem C04_typing_facts_pinned :
     Mimium.Gen.occursFnArmIsOr = true ∧ Mimium.Gen.projCheckRejectsLen = true := by decide
+
+open Mimium.TypeRec in
+/-- non-vacuity of the hypotheses `AcyclicA` / `fb n = n` / `env.length + 1 ≤ F`: the second environment of the example above
+is acyclic — by `C04_alias_detector_complete` itself (nothing is flagged, so nothing is dropped) -/
+example : AcyclicA id [(0, .pair (.alias 1) (.alias 1)), (1, .unary (.alias 2)), (2, .leaf), (3, .pair .leaf (.alias 0))] := by
+  have h := (C04_alias_detector_complete id
+    [(0, .pair (.alias 1) (.alias 1)), (1, .unary (.alias 2)), (2, .leaf), (3, .pair .leaf (.alias 0))] 5 (by decide)
+    (fun _ _ _ _ _ => rfl)).2.1
+  have e : flagged [(0, ATy.pair (.alias 1) (.alias 1)), (1, .unary (.alias 2)), (2, .leaf), (3, .pair .leaf (.alias 0))] 5 = [] := by decide
+  rw [e] at h
+  exact h
 
 /-- translator facts, pinned: the statements of /repo/crates that assign `parent = Some(…)` outside test modules are the 12 of
 `typing/unification.rs` (per function: four in the variable-variable arm — two of them behind `parent ≠ None` patterns that a
